@@ -77,7 +77,7 @@ CLAIMED = {
             "Decides the table-level inverse relation and the block-string gate; the round trip over all Unicode strings (indentation arithmetic, line joining) is not decided.",
             "pattern-set evaluation of closures/match arms, format-template decoding, const comparison over rustc HIR", False),
     "C05": ("other",
-            "Table- and shape-level necessary conditions of grammar conformance: keyword->production dispatch tables against the node kinds the productions open and against graphql.ungram / cst::Definition; four-way agreement on the 19 directive locations; one-or-more list productions cannot pass from opening to closing delimiter without an item or an error; every node kind a grammar function opens has produced all elements graphql.ungram requires of it on every path that reports no error (abstract interpretation over token-kind sets).",
+            "Table- and shape-level necessary conditions of grammar conformance: keyword->production dispatch tables against the node kinds the productions open and against graphql.ungram / cst::Definition; four-way agreement on the 19 directive locations; one-or-more list productions cannot pass from opening to closing delimiter without an item or an error; every node kind a grammar function opens has produced all elements graphql.ungram requires of it on every path that reports no error (abstract interpretation over token-kind sets); the [Const] parameter is passed through every call into Directives / Arguments / Value and a Variable under Const is reported; the two `Name but not ...` productions (EnumValue, FragmentName) compare the token text with each excluded word in their own function and report it.",
             "Verdict equivalence with a reference parser is not decided (not decidable by this family); only the named tables and shapes are. One known finding: `schema { query: }` is accepted (root_operation_type_definition, missing NamedType), see known_findings.json.",
             "string-pattern table extraction (HIR) + must-pass-through over MIR CFG + sibling table comparison + token-kind abstract interpretation of the grammar functions against graphql.ungram", False),
     "C28": ("other",
